@@ -15,3 +15,14 @@ package internal
 //@   note every entry of vs may be any interface value, including nil (the values of a message's Extra map); the library precondition of reflect.SliceOf (non-nil type) is checked as a safety obligation
 //@   loop 1:
 //@     invariant[idx] 1 <= i
+
+//@ func concatSliceValue
+//@   props C14 C04
+//@   note reflect.Value operations are opaque (arbitrary results); what is checked is the scan discipline of the "single non-zero chunk" rule: the chunks are examined one by one from the first
+//@   at call reflect.New: assume elmType != nil
+//@   note assumed (reflect): the element type of a slice value's type is a non-nil reflect.Type
+//@   ghost examined int = 0
+//@   at call 2 val.Index: assert[chunks_examined_in_order_from_the_first] @C14,C04 arg0 == examined
+//@   at call 2 val.Index: ghost examined++
+//@   loop 1:
+//@     invariant[all_earlier_chunks_examined] @C14,C04 examined == i && i >= 0
